@@ -241,6 +241,9 @@ class Keys:
         self.add("kd_es384", ec.generate_private_key(ec.SECP384R1()), "ec", 384, der=True)
         self.add("kd_es521", ec.generate_private_key(ec.SECP521R1()), "ec", 521, der=True)
         self.add("kd_ed", ed25519.Ed25519PrivateKey.generate(), "ed25519", 0, der=True)
+        self.add("k_k1", ec.generate_private_key(ec.SECP256K1()), "other", 0)              # 256 bits, not P-256
+        self.add("k_bp256", ec.generate_private_key(ec.BrainpoolP256R1()), "other", 0)
+        self.add("k_bp384", ec.generate_private_key(ec.BrainpoolP384R1()), "other", 0)
         self.add("k_ed448", ed448.Ed448PrivateKey.generate(), "ed448", 0)
         self.add("k_rsa", rsa.generate_private_key(65537, 1024), "other", 0)
 
@@ -281,7 +284,8 @@ class Keys:
 def kind_of_key(key):
     from cryptography.hazmat.primitives.asymmetric import ec, ed25519, ed448
     if isinstance(key, ec.EllipticCurvePrivateKey):
-        return "ec", key.key_size
+        # ES256 / ES384 / ES512 are ECDSA over the NIST curves: a key of another curve of the same size is of no supported class
+        return ("ec", key.key_size) if key.curve.name in ("secp256r1", "secp384r1", "secp521r1") else ("other", 0)
     if isinstance(key, ed25519.Ed25519PrivateKey):
         return "ed25519", 0
     if isinstance(key, ed448.Ed448PrivateKey):
